@@ -175,9 +175,16 @@ class Stream:
         return norm(SInt(list(reversed(chunk)))) if n else 0
 
     def read_concrete(self, n, what):
+        """a field the reader must branch on; if the encoder left it data-dependent and a path explorer is active, every
+        feasible value is followed on its own path (so that a counterexample is a real witness)"""
         v = self.read(n)
         if not isc(v):
-            raise DecodeError(f'{what} is not concrete')
+            from symx.explore import Explorer
+            from symx.values import concretize
+            if Explorer.cur is None:
+                raise DecodeError(f'{what} is not concrete')
+            Explorer.cur.notes.append(f'{what} depends on the data')
+            v = concretize(v)
         return v
 
     def left(self):
@@ -221,7 +228,9 @@ def parse_stream(bits, v):
                 if s.left() < mbits:
                     break
                 mi = s.read_concrete(mbits, 'mode indicator')
-                mode = T.MICRO_INDICATOR_MODE[mi]
+                mode = T.MICRO_INDICATOR_MODE.get(mi)
+                if mode is None:
+                    raise DecodeError(f'unknown Micro mode indicator {mi}')
             # terminator of a Micro symbol: mode indicator bits + count bits all zero is read as terminator (length 3/5/7/9)
             cb = T.cci_bits(mode, v)
             if cb is None:
